@@ -6,17 +6,29 @@ Read from the current working tree on every run:
     if/elif dispatch chain (class instantiated, keys tested, in order), the keys of the shape
     condition and the classes the shape override may replace, the default class;
   * from the live registry `psd_tools.api.adjustments.TYPES`: key order, class kind, FillLayer-ness.
+  * from the AST of the *dispatch closure* (the record loop of `_init` plus every function / method of the same
+    module it calls, transitively): the `record.flags.<name>` attributes read, the `Tag.<X>` names consulted, and the
+    module-level / class-level MUTABLE state the closure touches (dict / list / set displays and constructors bound at
+    module or class level, `global` statements, memoising decorators). The model's `kindOf` is a function of the
+    record's blocks and of one flag; `Props/C08.lean dispatch_reads_tied` states that this is all the source reads
+    and that nothing is remembered between records or documents.
+  * from psd/__init__.py: where the reader looks for the records (`PSD._get_layer_info`, shared with C09's
+    Generated/Reopen.lean).
 A change to the order of the chain, to a key list or to the registry changes the generated file,
 and `Props/C08.lean` re-checks `kind_follows_blocks` / `divider_tables_tied` against it.
+
+A change of the source is never an infrastructure error: whatever is no longer found is written as the sentinel
+`<not found>` (the tying theorems then fail: broken tie), the Generated file is always written.
 """
 from __future__ import annotations
 
 import ast
 
-from core import REPO, Infra
+from core import REPO
 from extract import lean_str
 
 SRC = REPO / "src" / "psd_tools" / "api" / "psd_image.py"
+MISSING = "<not found>"
 
 
 def _kind_of_class(name: str) -> str:
@@ -56,20 +68,45 @@ def _assigned_class(body, var="layer"):
     return None
 
 
-def read_init():
-    tree = ast.parse(SRC.read_text())
-    init = None
+def _find_init(tree):
     for cls in ast.walk(tree):
         if isinstance(cls, ast.ClassDef) and cls.name == "PSDImage":
             for f in cls.body:
                 if isinstance(f, ast.FunctionDef) and f.name == "_init":
-                    init = f
+                    return cls, f
+    return None, None
+
+
+def _record_loop(init):
     if init is None:
-        raise Infra("psd_image.py: PSDImage._init not found")
-    loop = next((n for n in init.body if isinstance(n, ast.For)), None)
-    if loop is None or "_iter_layers" not in ast.unparse(loop.iter):
-        raise Infra("_init: loop over _iter_layers() not found")
-    info = {"iter": ast.unparse(loop.iter), "reversed": "reversed" in ast.unparse(loop.iter)}
+        return None
+    for n in init.body:
+        if isinstance(n, ast.For) and "_iter_layers" in ast.unparse(n.iter):
+            return n
+    return None
+
+
+def read_init():
+    """The tables of `_init`. Nothing raises: a piece that is no longer where it was is reported in
+    info["missing"] and left at its sentinel (empty list / MISSING), which the tying theorems reject."""
+    info = {"iter": MISSING, "reversed": False, "divider_keys": [], "ignored_kinds": [], "push_kinds": [],
+            "pop_kinds": [], "artboard_keys": [], "chain": [], "shape_keys": [], "overridable": [],
+            "shape_cls": None, "default_cls": None, "missing": []}
+    try:
+        tree = ast.parse(SRC.read_text())
+    except (OSError, SyntaxError) as e:
+        info["missing"].append("psd_image.py cannot be parsed: %s" % type(e).__name__)
+        return info
+    _, init = _find_init(tree)
+    if init is None:
+        info["missing"].append("PSDImage._init not found")
+        return info
+    loop = _record_loop(init)
+    if loop is None:
+        info["missing"].append("_init: loop over _iter_layers() not found")
+        return info
+    info["iter"] = ast.unparse(loop.iter)
+    info["reversed"] = "reversed" in ast.unparse(loop.iter)
 
     # divider = blocks.get_data(K1, None); divider = blocks.get_data(K2, divider)
     div_keys = []
@@ -80,7 +117,8 @@ def read_init():
 
     top_if = next((st for st in loop.body if isinstance(st, ast.If) and "divider" in ast.unparse(st.test)), None)
     if top_if is None:
-        raise Infra("_init: `if divider is not None ...` not found")
+        info["missing"].append("_init: `if divider is not None ...` not found")
+        return info
     info["ignored_kinds"] = _divs_in(top_if.test)
     push, pop, art = [], [], []
     inner = next((st for st in top_if.body if isinstance(st, ast.If)), None)
@@ -106,15 +144,18 @@ def read_init():
         if len(orelse) == 1 and isinstance(orelse[0], ast.If):
             node = orelse[0]
             cls = _assigned_class(node.body)
-            chain.append({"cls": cls, "kind": _kind_of_class(cls or "?"), "keys": _tags_in(node.test)})
+            chain.append({"cls": cls or MISSING, "kind": _kind_of_class(cls or MISSING), "keys": _tags_in(node.test)})
         else:
             src = "\n".join(ast.unparse(s) for s in orelse)
             if "adjustments.TYPES" in src:
                 chain.append({"cls": "adjustments.TYPES", "kind": "", "keys": []})
             elif orelse:
-                raise Infra("_init: unexpected final else arm: " + src[:80])
+                info["missing"].append("_init: unexpected final else arm: " + src[:80])
+                chain.append({"cls": MISSING, "kind": MISSING, "keys": []})
             break
     info["chain"] = chain
+    if not chain:
+        info["missing"].append("_init: the elif dispatch chain after the divider test is gone")
 
     # shape_condition = record.flags.pixel_data_irrelevant and (Tag... or ...)
     shape_keys, shape_flag = [], None
@@ -127,24 +168,123 @@ def read_init():
             shape_keys = _tags_in(v)
         if isinstance(st, ast.If) and "shape_condition" in ast.unparse(st.test):
             for n in ast.walk(st.test):
-                if isinstance(n, ast.Call) and isinstance(n.func, ast.Name) and n.func.id == "isinstance":
+                if isinstance(n, ast.Call) and isinstance(n.func, ast.Name) and n.func.id == "isinstance" and len(n.args) == 2:
                     classes = n.args[1].elts if isinstance(n.args[1], ast.Tuple) else [n.args[1]]
                     overridable = [ast.unparse(c) for c in classes]
             shape_cls = _assigned_class(st.body)
         if isinstance(st, ast.If) and ast.unparse(st.test) == "layer is None":
             default_cls = _assigned_class(st.body)
     if shape_flag != "record.flags.pixel_data_irrelevant":
-        raise Infra("_init: shape_condition no longer starts with record.flags.pixel_data_irrelevant: %r" % shape_flag)
+        info["missing"].append("_init: shape_condition no longer starts with record.flags.pixel_data_irrelevant: %r" % shape_flag)
+        shape_keys = [MISSING] + shape_keys
     info.update(shape_keys=shape_keys, overridable=overridable, shape_cls=shape_cls, default_cls=default_cls)
     return info
 
 
+# ---- what the dispatch reads, and what it remembers ------------------------------------------------
+_MUTABLE_CALLS = {"dict", "list", "set", "defaultdict", "OrderedDict", "Counter", "deque", "WeakValueDictionary",
+                  "WeakKeyDictionary", "bytearray"}
+_MEMO_DECORATORS = {"lru_cache", "cache", "cached", "memoize", "memoized", "cached_property"}
+
+
+def _is_mutable_value(v) -> bool:
+    if isinstance(v, (ast.Dict, ast.List, ast.Set, ast.DictComp, ast.ListComp, ast.SetComp)):
+        return True
+    if isinstance(v, ast.Call):
+        f = v.func
+        name = f.id if isinstance(f, ast.Name) else f.attr if isinstance(f, ast.Attribute) else None
+        return name in _MUTABLE_CALLS
+    return False
+
+
+def _bound_mutables(body):
+    """names bound, directly in a module or class body, to a mutable container"""
+    out = set()
+    for st in body:
+        if isinstance(st, ast.Assign) and _is_mutable_value(st.value):
+            out |= {t.id for t in st.targets if isinstance(t, ast.Name)}
+        elif isinstance(st, ast.AnnAssign) and st.value is not None and _is_mutable_value(st.value) \
+                and isinstance(st.target, ast.Name):
+            out.add(st.target.id)
+    return out
+
+
+def read_dispatch_reads():
+    try:
+        return _read_dispatch_reads()
+    except Exception:  # noqa  (an AST shape this reader does not understand: sentinel, never an infrastructure error)
+        return {"flags": [MISSING], "tags": [MISSING], "state": [MISSING], "functions": [MISSING]}
+
+
+def _read_dispatch_reads():
+    """-> {"flags": [...], "tags": [...], "state": [...], "functions": [...]} of the dispatch closure: the body
+    of the record loop of `_init` and, transitively, every module-level function and every method of PSDImage
+    that it calls by name (`f(...)`, `self.f(...)`, `cls.f(...)`, `PSDImage.f(...)`)."""
+    out = {"flags": [MISSING], "tags": [MISSING], "state": [MISSING], "functions": [MISSING]}
+    try:
+        tree = ast.parse(SRC.read_text())
+    except (OSError, SyntaxError):
+        return out
+    cls, init = _find_init(tree)
+    loop = _record_loop(init)
+    if loop is None:
+        return out
+    mod_funcs = {n.name: n for n in tree.body if isinstance(n, (ast.FunctionDef, ast.AsyncFunctionDef))}
+    methods = {n.name: n for n in cls.body if isinstance(n, (ast.FunctionDef, ast.AsyncFunctionDef))}
+    mod_state = _bound_mutables(tree.body)
+    cls_state = _bound_mutables(cls.body)
+    seen, todo, nodes = [], [], list(loop.body)
+    flags, tags, state = set(), set(), set()
+
+    def scan(stmts, fname):
+        for st in stmts:
+            for n in ast.walk(st):
+                if isinstance(n, ast.Attribute):
+                    if isinstance(n.value, ast.Attribute) and n.value.attr == "flags":
+                        flags.add(n.attr)
+                    if isinstance(n.value, ast.Name) and n.value.id == "Tag":
+                        tags.add(n.attr)
+                    if isinstance(n.value, ast.Name) and n.value.id in ("self", "cls", "PSDImage") and n.attr in cls_state:
+                        state.add("PSDImage." + n.attr)
+                elif isinstance(n, ast.Name) and n.id in mod_state:
+                    state.add(n.id)
+                elif isinstance(n, (ast.Global, ast.Nonlocal)):
+                    state.update("global " + x for x in n.names)
+                elif isinstance(n, ast.Call):
+                    f = n.func
+                    if isinstance(f, ast.Name) and f.id in mod_funcs:
+                        todo.append(("", f.id))
+                    elif isinstance(f, ast.Attribute) and isinstance(f.value, ast.Name) and \
+                            f.value.id in ("self", "cls", "PSDImage") and f.attr in methods:
+                        todo.append(("PSDImage.", f.attr))
+
+    scan(nodes, "_init")
+    while todo:
+        pre, name = todo.pop()
+        if (pre, name) in seen:
+            continue
+        seen.append((pre, name))
+        fn = (methods if pre else mod_funcs)[name]
+        for d in fn.decorator_list:
+            dn = d.func if isinstance(d, ast.Call) else d
+            dname = dn.id if isinstance(dn, ast.Name) else dn.attr if isinstance(dn, ast.Attribute) else ""
+            if dname in _MEMO_DECORATORS:
+                state.add("@%s %s%s" % (dname, pre, name))
+        scan(fn.body, pre + name)
+    return {"flags": sorted(flags), "tags": sorted(tags), "state": sorted(state),
+            "functions": sorted(p + n for p, n in seen)}
+
+
 def read_registry():
-    from psd_tools.api import adjustments
-    from psd_tools.api.layers import FillLayer
     out = []
-    for key, cls in adjustments.TYPES.items():
-        out.append({"key": key.name, "kind": _kind_of_class(cls.__name__), "fill": issubclass(cls, FillLayer)})
+    try:
+        from psd_tools.api import adjustments
+        from psd_tools.api.layers import FillLayer
+        for key, cls in adjustments.TYPES.items():
+            out.append({"key": getattr(key, "name", str(key)), "kind": _kind_of_class(cls.__name__),
+                        "fill": issubclass(cls, FillLayer)})
+    except Exception as e:  # noqa  (registry renamed / moved: sentinel entry, the tie fails)
+        out.append({"key": MISSING, "kind": "%s: %s" % (type(e).__name__, str(e)[:60]), "fill": False})
     return out
 
 
@@ -155,7 +295,14 @@ def _strs(xs):
 def gen_tree_kinds(ctx):
     info = read_init()
     reg = read_registry()
-    from psd_tools.constants import SectionDivider
+    reads = read_dispatch_reads()
+    for m in info["missing"]:
+        ctx.notes.append("extract_c08: " + m + " (sentinel written, the tying theorem fails)")
+    try:
+        from psd_tools.constants import SectionDivider
+        divider_members = [(m.name, int(m.value)) for m in SectionDivider]
+    except Exception:  # noqa
+        divider_members = [(MISSING, 0)]
     arms = ",\n    ".join(".registry" if a["cls"] == "adjustments.TYPES" else
                           ".test %s %s %s" % (lean_str(a["cls"]), lean_str(a["kind"]), _strs(a["keys"]))
                           for a in info["chain"])
@@ -189,11 +336,24 @@ def popKinds : List String := {_strs(info["pop_kinds"])}
 /-- keys whose presence on the group record re-types the group as an artboard -/
 def artboardKeys : List String := {_strs(info["artboard_keys"])}
 /-- members of `constants.SectionDivider` with their values -/
-def sectionDivider : List (String × Nat) := [{", ".join("(%s, %d)" % (lean_str(m.name), m.value) for m in SectionDivider)}]
+def sectionDivider : List (String × Nat) := [{", ".join("(%s, %d)" % (lean_str(n), v) for n, v in divider_members)}]
 /-- the record list is iterated in file order (`reversed(...)` absent) -/
 def iteratesReversed : Bool := {"true" if info["reversed"] else "false"}
+/-- the expression the record loop of `_init` iterates over -/
+def loopSource : String := {lean_str(info["iter"])}
+
+/-- the dispatch closure: the body of the record loop of `_init` and every function / method of psd_image.py it
+    calls (transitively): the functions followed, … -/
+def dispatchFunctions : List String := {_strs(reads["functions"])}
+/-- … the `<record>.flags.<name>` attributes it reads, … -/
+def dispatchFlags : List String := {_strs(reads["flags"])}
+/-- … the `Tag.<X>` names it consults (sorted), … -/
+def dispatchTags : List String := {_strs(reads["tags"])}
+/-- … and the module-level / class-level mutable containers, `global` names and memoising decorators it touches:
+    anything here can make the kind of a record depend on records seen before -/
+def dispatchState : List String := {_strs(reads["state"])}
 
 end PsdVerif.Generated.TreeKinds
 """
     ctx.write_generated("TreeKinds", src)
-    return {"init": info, "registry": reg}
+    return {"init": info, "registry": reg, "reads": reads}
